@@ -170,7 +170,7 @@ func FreeExecute(sc *Scenario, seed int64) ([]Finding, FreeObs) {
 	close(r.findings)
 	for f := range r.findings {
 		parts := strings.SplitN(f, "\x00", 2)
-		fs = append(fs, Finding{parts[0], parts[1]})
+		fs = append(fs, Finding{Prop: parts[0], Msg: parts[1]})
 	}
 	var st []string
 	for t := 0; t < n; t++ {
